@@ -1,9 +1,123 @@
-(* C15 — every RPC is completed exactly once: by its own response or by a timeout. *)
+(* C15 — Every RPC is completed exactly once: by its own response or by a timeout.
+   Theorems over ALL histories (lists of the atomic operations Call/AsyncCall, Dispatch, expiry
+   sweep, ReapTimeout — each runs under the client's mutex or on the owner thread, so every
+   interleaving of calls from many goroutines, responses in any order incl. duplicates and unknown
+   numbers, and sweeps at any time is such a list) and ALL positions 0 <= c0 < 65536 of the 16-bit
+   sequence counter (so also across its wrap).  [s] below is any reachable state.
+   This file holds only the property theorems; each is closed by a lemma of Proofs.v. *)
 From Coq Require Import ZArith List Bool.
-From FV Require Import C15.Model C15.Proofs.
+From FV Require Import Generated.Consts C15.Model C15.Proofs.
 Import ListNotations.
 Open Scope Z_scope.
 
-Theorem c15_bump_nonzero : forall c, bump c <> 0.
-Proof. exact bump_nonzero. Qed.
-Print Assumptions c15_bump_nonzero.
+Definition reachable (s : st) : Prop := exists c0 ops, u16 c0 /\ s = fst (run (init c0) ops).
+
+Lemma reachable_Inv s : reachable s -> Inv s.
+Proof. intros [c0 [ops [H ->]]]. apply reach_Inv. exact H. Qed.
+
+(* "Each outstanding call is tagged with a non-zero sequence number different from that of every
+   other outstanding call": a call either gets a number in 1..65535 that no pending call holds
+   (and only its own table entry changes), or — only when all 65535 numbers are taken — is refused
+   and completed at once with ResourceExhausted *)
+Theorem c15_seq_nonzero_unique : forall s sync dl, reachable s ->
+  forall s' x, step s (OCall sync dl) = (s', x) ->
+  (seqnum (oseq x) /\ ~ In (oseq x) (keys (pending s)) /\
+   lookup (oseq x) (pending s') = Some (mkctx (ncalls s) sync dl) /\
+   (forall k, k <> oseq x -> lookup k (pending s') = lookup k (pending s)) /\
+   ocomps x = [] /\ expired s' = expired s)
+  \/
+  (oseq x = 0 /\ (forall k, seqnum k -> In k (keys (pending s))) /\
+   pending s' = pending s /\ expired s' = expired s /\
+   ocomps x = [complete (mkctx (ncalls s) sync dl) (errpkt codes_ResourceExhausted)]).
+Proof. intros s sync dl R. apply call_spec. apply reachable_Inv. exact R. Qed.
+Print Assumptions c15_seq_nonzero_unique.
+
+(* ... as a fact about every reachable pending table *)
+Theorem c15_seq_unique : forall c0 ops, u16 c0 ->
+  let s := fst (run (init c0) ops) in
+  NoDup (keys (pending s)) /\ (forall k, In k (keys (pending s)) -> seqnum k).
+Proof. exact seq_unique. Qed.
+Print Assumptions c15_seq_unique.
+
+(* "a response is matched to the call with the same sequence number and completes it exactly
+   once ... " : one completion, of that call, with that packet; the entry is gone, others untouched *)
+Theorem c15_dispatch_once : forall s r c, reachable s -> lookup (rseq r) (pending s) = Some c ->
+  forall s' x, step s (ODispatch r) = (s', x) ->
+  ocomps x = [complete c r] /\ ores x = 0 /\
+  lookup (rseq r) (pending s') = None /\
+  (forall k, k <> rseq r -> lookup k (pending s') = lookup k (pending s)) /\
+  expired s' = expired s.
+Proof. intros s r c R. apply dispatch_spec. apply reachable_Inv. exact R. Qed.
+Print Assumptions c15_dispatch_once.
+
+(* "... a blocking caller is released with that response, an asynchronous callback runs once with
+   the decoded reply or with the reply's error code" *)
+Theorem c15_completion_content : forall c r,
+  (csync c = true -> complete c r = mkcomp (cid c) 0 (rerr r) (rid r)) /\
+  (csync c = false -> 0 < rerr r -> complete c r = mkcomp (cid c) 1 (rerr r) (-1)) /\
+  (csync c = false -> rerr r <= 0 -> rdec r = true -> complete c r = mkcomp (cid c) 1 0 (rid r)) /\
+  (csync c = false -> rerr r <= 0 -> rdec r = false -> complete c r = mkcomp (cid c) 1 codes_InternalError (-1)).
+Proof. exact complete_spec. Qed.
+Print Assumptions c15_completion_content.
+
+(* "a response matching no outstanding call is reported as an error and completes nothing" *)
+Theorem c15_unmatched : forall s r, lookup (rseq r) (pending s) = None ->
+  step s (ODispatch r) = (s, mkout 0 1 []).
+Proof. exact unmatched_spec. Qed.
+Print Assumptions c15_unmatched.
+
+(* "A call left unanswered past its time-to-live is completed exactly once with the
+   request-timeout code": the sweep moves exactly the overdue calls to the expired list (and
+   completes nothing itself); the next ReapTimeout completes each of them once *)
+Theorem c15_timeout_sweep : forall s now, reachable s ->
+  forall s' x, step s (OSweep now) = (s', x) ->
+  ocomps x = [] /\
+  (forall k c, In (k, c) (pending s) -> cdl c < now -> In c (expired s') /\ lookup k (pending s') = None) /\
+  (forall k c, In (k, c) (pending s) -> now <= cdl c -> lookup k (pending s') = Some c) /\
+  (forall c, In c (expired s) -> In c (expired s')).
+Proof. intros s now R. apply sweep_spec. apply reachable_Inv. exact R. Qed.
+Print Assumptions c15_timeout_sweep.
+
+Theorem c15_timeout_once : forall s c, reachable s -> In c (expired s) ->
+  forall s' x, step s OReap = (s', x) ->
+  expired s' = [] /\ pending s' = pending s /\ ores x = Z.of_nat (length (expired s)) /\
+  In (complete c (errpkt codes_RequestTimeout)) (ocomps x) /\
+  length (filter (fun k => kcid k =? cid c) (ocomps x)) = 1%nat /\
+  complete c (errpkt codes_RequestTimeout) = mkcomp (cid c) (if csync c then 0 else 1) codes_RequestTimeout (-1).
+Proof.
+  intros s c R Hin s' x H. destruct (reap_spec s c (reachable_Inv s R) Hin s' x H) as [A [B [C [D E]]]].
+  repeat (split; [assumption|]). apply timeout_complete_spec.
+Qed.
+Print Assumptions c15_timeout_once.
+
+(* "and a response arriving after that is treated as unmatched" *)
+Theorem c15_late_unmatched : forall s now k c r, reachable s ->
+  In (k, c) (pending s) -> cdl c < now -> rseq r = k ->
+  forall s1 x1, step s (OSweep now) = (s1, x1) ->
+  step s1 (ODispatch r) = (s1, mkout 0 1 []).
+Proof. intros s now k c r R. apply late_spec. apply reachable_Inv. exact R. Qed.
+Print Assumptions c15_late_unmatched.
+
+(* over any history no call is completed twice *)
+Theorem c15_at_most_once : forall c0 ops, u16 c0 ->
+  NoDup (map kcid (completions (snd (run (init c0) ops)))).
+Proof. exact at_most_once. Qed.
+Print Assumptions c15_at_most_once.
+
+(* non-vacuity: the counter stands at 65534; three calls get 65535, 1, 2 (0 is skipped); the first is
+   answered, the second times out (sweep at 61000 > 60000) and its late answer is unmatched, the
+   third — made with a later deadline — survives the sweep *)
+Definition ex_ops : list op :=
+  [OCall true 60000; OCall false 60000; OCall false 90000;
+   ODispatch (mkresp 65535 7 0 true); OSweep 61000; OReap;
+   ODispatch (mkresp 1 8 0 true)].
+
+Example c15_example :
+  map oseq (firstn 3 (snd (run (init 65534) ex_ops))) = [65535; 1; 2] /\
+  completions (snd (run (init 65534) ex_ops)) = [mkcomp 0 0 0 7; mkcomp 1 1 codes_RequestTimeout (-1)] /\
+  map ores (snd (run (init 65534) ex_ops)) = [0; 0; 0; 0; 0; 1; 1] /\
+  keys (pending (fst (run (init 65534) ex_ops))) = [2].
+Proof. vm_compute. repeat split. Qed.
+
+Example c15_example_reachable : reachable (fst (run (init 65534) ex_ops)).
+Proof. exists 65534, ex_ops. split; [unfold u16; split; [discriminate | reflexivity] | reflexivity]. Qed.
